@@ -58,6 +58,7 @@ func init() {
 			p.ruleA5(c, func(n string) bool { return n == "WithinPoint" || n == "IntersectsPoint" || n == "Contains" || n == "Intersects" })
 			p.ruleMatrix(c, kinds, "Contains", 6)
 			p.ruleSegmentForwarders(c)
+			p.rulePolyHoles(c)
 			p.ruleB1(c, nil)
 			p.ruleB1Searcher(c)
 			p.ruleNudge(c)
@@ -79,6 +80,7 @@ func init() {
 			rows := p.ruleMatrix(c, kinds, "Intersects", 6)
 			c.Notes = append(c.Notes, matrixEvidence(rows)...)
 			p.ruleScanExits(c)
+			p.rulePolyHoles(c)
 			p.ruleB1(c, nil)
 			p.ruleM1(c, map[string]bool{"geometry.Segment.IntersectsSegment": true})
 			p.ruleE8(c, "geometry.Rect.IntersectsRect", "geometry.Segment.IntersectsSegment#box-prefix", "geometry.Rect.ContainsPoint")
@@ -99,6 +101,7 @@ func init() {
 			p.ruleConvexGate(c)
 			p.ruleConvexFSM(c)
 			p.ruleScanExits(c)
+			p.rulePolyHoles(c)
 			p.ruleB1(c, nil)
 			p.ruleE8(c, "geometry.Rect.ContainsRect", "geometry.Rect.ContainsPoint")
 			c.Exhaustive = true
@@ -110,6 +113,7 @@ func init() {
 		Run: func(p *Program, c *Check) {
 			p.ruleCallbackProtocol(c)
 			p.ruleCursor(c)
+			p.ruleLayout(c)
 			p.ruleWidths(c)
 			p.ruleBuildIndex(c)
 			p.ruleE8(c, "geometry.Rect.IntersectsRect", "geometry.Segment.Rect", "(*geometry.rRect).expand", "(*geometry.rRect).contains", "(*geometry.rRect).intersects", "(*geometry.qNode).chooseQuad+quadBounds")
@@ -166,6 +170,7 @@ func init() {
 			p.ruleP1(c)
 			p.ruleAccelTables(c, effects(p))
 			p.ruleBuildIndex(c)
+			p.ruleCollectionFold(c)
 			p.ruleCircleConvention(c)
 			kinds := p.leafKinds(c, "E1")
 			p.ruleA1A2(c, kinds, true, true, "")
